@@ -122,7 +122,7 @@ fn dense(abs: &Abs) -> bool {
 }
 
 fn space_contig<R: Rep>(n: usize, walk_len: usize) -> Space {
-    Space::new("c02.contig", vec![R::ID, n as u64, walk_len as u64], dcount(n), format!("every digraph on 0..{n} in {}, every query, ids in V ∪ {{n, n+1}}, walks of length ≤ {walk_len}", R::NAME), move |idx, ctx| {
+    let sp = Space::new("c02.contig", vec![R::ID, n as u64, walk_len as u64], dcount(n), format!("every digraph on 0..{n} in {}, every query, ids in V ∪ {{n, n+1}}, walks of length ≤ {walk_len}", R::NAME), move |idx, ctx| {
         let abs = Abs::from_mask(n, idx);
         // the worker-count seam matters for AdjacencyList::degree_sequence
         par(1 + (idx % 6) as usize);
@@ -141,7 +141,8 @@ fn space_contig<R: Rep>(n: usize, walk_len: usize) -> Space {
             ctx.tag("dense_digraphs");
         }
         ctx.sample(|| json!({"rep": R::NAME, "digraph": abs.arcs_json(), "queries": "all of C02"}));
-    })
+    });
+    if R::ID == 0 { sp.procs() } else { sp }
 }
 
 fn space_sparse(pool: &'static [usize], k: usize, walk_len: usize) -> Space {
@@ -199,7 +200,7 @@ fn space_family<R: Rep>(orders: &'static [usize], pars: usize) -> Space {
         }
     }
     let total = cases.len() as u64 * pars as u64;
-    Space::new("c02.family", vec![R::ID, orders.iter().map(|&x| x as u64).sum(), pars as u64], total, format!("structured digraphs (empty, complete, circuit, path, star, transitive tournament, band, mod-3 pattern) of orders {orders:?} in {}, worker count 1..={pars}", R::NAME), move |idx, ctx| {
+    let sp = Space::new("c02.family", vec![R::ID, orders.iter().map(|&x| x as u64).sum(), pars as u64], total, format!("structured digraphs (empty, complete, circuit, path, star, transitive tournament, band, mod-3 pattern) of orders {orders:?} in {}, worker count 1..={pars}", R::NAME), move |idx, ctx| {
         let (n, f) = cases[(idx / pars as u64) as usize];
         let p = 1 + (idx % pars as u64) as usize;
         par(p);
@@ -215,7 +216,8 @@ fn space_family<R: Rep>(orders: &'static [usize], pars: usize) -> Space {
             ctx.tag("ragged_last_chunk");
         }
         ctx.sample(|| json!({"rep": R::NAME, "family": name, "order": n, "par": p}));
-    })
+    });
+    if R::ID == 0 { sp.procs() } else { sp }
 }
 
 pub fn build(tier: &str, seed: u64) -> Check {
